@@ -5,7 +5,7 @@
    Tie: Gen/Tables.v regenerated from route.py/core.py + chainlab correspondence. *)
 From Coq Require Import List String Bool.
 Import ListNotations.
-From ClasticV Require Import Base.Py Base.FSet Gen.Tables Model.Chain Model.Exec
+From ClasticV Require Import Gen.ChainShape Base.Py Base.FSet Gen.Tables Model.Chain Model.Exec
      Proofs.ChainProofs Proofs.ExecProofs Proofs.RouteProofs Proofs.OnionProofs Proofs.ValueProofs Proofs.NestedProofs.
 Local Open Scope string_scope.
 Local Open Scope list_scope.
@@ -121,3 +121,108 @@ Example C01_example :
    Enter FRender [("context", VS "C"); ("db", VS "R:db")]; Leave FRender (OVal true "R");
    Leave (FMw PhReq 0) (OVal true "R")].
 Proof. eexists. split; [vm_compute; reflexivity|]. vm_compute. reflexivity. Qed.
+
+(* obligation on the source: the control-flow skeletons of chain_argspec, build_chain_str, make_chain, make_middleware_chain and the cycle test, regenerated from the source on every run.  The model is a
+   hand transcription of exactly these statements: any edit re-opens the correspondence question (the check then searches
+   for a failing input and reports what it finds) *)
+Theorem C01_bind_time_shape :
+  SK_CHAIN_ARGSPEC =
+  ["provided_sofar = set([inner_name])";
+   "optional_sofar = set()";
+   "required_sofar = set()";
+   "for (f, p) in zip(func_list, provides)";
+   "  fb = get_fb(f)";
+   "  arg_names = fb.get_arg_names()";
+   "  defaults_dict = fb.get_defaults_dict()";
+   "  defaulted, undefaulted = iterutils.partition(arg_names, key=defaults_dict.__contains__)";
+   "  optional_sofar.update(defaulted)";
+   "  required_sofar |= set(undefaulted) - provided_sofar";
+   "  provided_sofar.update(p)";
+   "return (required_sofar, optional_sofar)"] /\
+  SK_BUILD_CHAIN_STR =
+  ["if not funcs";
+   "  return ''";
+   "if params_sofar is None";
+   "  params_sofar = set([inner_name])";
+   "params_sofar.update(params[0])";
+   "inner_args = get_fb(funcs[0]).get_arg_names()";
+   "inner_arg_dict = dict([(a, a) for a in inner_args])";
+   "inner_arg_items = sorted(inner_arg_dict.items())";
+   "inner_args = ', '.join(['%s=%s' % kv for kv in inner_arg_items if kv[0] in params_sofar])";
+   "outer_indent = _INDENT * level";
+   "inner_indent = outer_indent + _INDENT";
+   "outer_arg_str = ', '.join(params[0])";
+   "def_str = '%sdef %s(%s):\n' % (outer_indent, inner_name, outer_arg_str)";
+   "body_str = build_chain_str(funcs[1:], params[1:], inner_name, params_sofar, level + 1)";
+   "htb_str = '%s__traceback_hide__ = True\n' % (inner_indent,)";
+   "return_str = '%sreturn funcs[%s](%s)\n' % (inner_indent, level, inner_args)";
+   "return ''.join([def_str, body_str, htb_str + return_str])"] /\
+  SK_MAKE_CHAIN =
+  ["funcs = list(funcs)";
+   "provides = list(provides)";
+   "preprovided = set(preprovided)";
+   "reqs, opts = chain_argspec(funcs + [final_func], provides + [()], inner_name)";
+   "unresolved = tuple(reqs - preprovided)";
+   "args = reqs | preprovided & opts";
+   "chain = compile_chain(funcs + [final_func], [args] + provides, inner_name)";
+   "return (chain, set(args), set(unresolved))"] /\
+  SK_MAKE_MIDDLEWARE_CHAIN =
+  ["_next_exc_msg = ""argument 'next' reserved for middleware use only (%r)""";
+   "if 'next' in get_arg_names(endpoint)";
+   "  raise NameError(_next_exc_msg % endpoint)";
+   "if 'next' in get_arg_names(render)";
+   "  raise NameError(_next_exc_msg % render)";
+   "req_avail = set(preprovided) - set(['next', 'context'])";
+   "req_sigs = [(mw.request, mw.provides) for mw in middlewares if mw.request]";
+   "req_funcs, req_provides = list(zip(*req_sigs)) or ((), ())";
+   "req_all_provides = set(itertools.chain.from_iterable(req_provides))";
+   "ep_avail = req_avail | req_all_provides";
+   "ep_sigs = [(mw.endpoint, mw.endpoint_provides) for mw in middlewares if mw.endpoint]";
+   "ep_funcs, ep_provides = list(zip(*ep_sigs)) or ((), ())";
+   "ep_chain, ep_args, ep_unres = make_chain(ep_funcs, ep_provides, endpoint, ep_avail, _INNER_NAME)";
+   "if ep_unres";
+   "  raise NameError('unresolved endpoint middleware arguments: %r' % list(ep_unres))";
+   "rn_avail = ep_avail | set(['context'])";
+   "rn_sigs = [(mw.render, mw.render_provides) for mw in middlewares if mw.render]";
+   "rn_funcs, rn_provides = list(zip(*rn_sigs)) or ((), ())";
+   "rn_chain, rn_args, rn_unres = make_chain(rn_funcs, rn_provides, render, rn_avail, _INNER_NAME)";
+   "if rn_unres";
+   "  raise NameError('unresolved render middleware arguments: %r' % list(rn_unres))";
+   "req_args = (ep_args | rn_args) - set(['context'])";
+   "req_func = _create_request_inner(ep_chain, rn_chain, req_args, ep_args, rn_args)";
+   "req_chain, req_chain_args, req_unres = make_chain(req_funcs, req_provides, req_func, req_avail, _INNER_NAME)";
+   "if req_unres";
+   "  raise NameError('unresolved request middleware arguments: %r' % list(req_unres))";
+   "return req_chain"] /\
+  SK_BOUNDROUTE_RESOLVE_REQUIRED_ARGS =
+  ["args = {}";
+   "def add(provides)";
+   "  for p in provides";
+   "    args.setdefault(p, [])";
+   "def add_func(provides, func=None)";
+   "  func = func or (lambda: None)";
+   "  fb = get_fb(func)";
+   "  deps = fb.args";
+   "  defaulted_deps = fb.get_defaults_dict()";
+   "  for p in provides";
+   "    args.setdefault(p, []).extend(deps)";
+   "  for ddep in defaulted_deps";
+   "    if ddep not in args";
+   "      args[ddep] = []";
+   "  return";
+   "url_args = self.converters.keys()";
+   "add(url_args)";
+   "add(RESERVED_ARGS)";
+   "add(self.resources.keys())";
+   "for mw in self.middlewares";
+   "  add_func(mw.provides, mw.request)";
+   "  add_func(mw.endpoint_provides, mw.endpoint)";
+   "  add_func(mw.render_provides, mw.render)";
+   "add_func(['__endpoint_response__'], self.unbound_route.endpoint)";
+   "resolved = resolve_deps(args)";
+   "ret = resolved['__endpoint_response__']";
+   "if not with_builtins";
+   "  ret = [d for d in ret if d not in RESERVED_ARGS]";
+   "return ret"].
+Proof. repeat split; reflexivity. Qed.
+Print Assumptions C01_bind_time_shape.
